@@ -214,6 +214,22 @@ def main():
                                  small, comp.NAME, None, sil)
                     violations.append((mh[0], path))
                     saved += 1
+        # ---- thorough: exhaustive enumeration of the schedules of small programs (bounded pre-emptions)
+        if tier == 'thorough' and getattr(comp, 'ENUM', False):
+            en = enumerate_small(comp, spec, rng.fork(comp.NAME + 'enum'), mexe, iexe, shards)
+            stats.setdefault('enum', {})[comp.NAME] = en['summary']
+            for (c, d, ml, il) in en['diffs'][:1]:
+                first_diffs.append((c, d, ml, il))
+            stats['diffs'] += len(en['diffs'])
+            stats['evaluations'] += en['summary']['schedules']
+            for (c, mh, il) in en['hits'][:1]:
+                stats['monitor_hits'] += 1
+                if saved < 3:
+                    path = replay_path(pid, seed, saved)
+                    write_replay(path, ['VIOLATION of %s on the implementation (monitor; schedule from the exhaustive small-scope enumeration)' % pid] + mh,
+                                 c, comp.NAME, None, il)
+                    violations.append((mh[0], path))
+                    saved += 1
         if first_diffs:
             c, d, ml, il = first_diffs[0]
             small = shrink_diff(comp, mexe, iexe, c)
@@ -276,7 +292,8 @@ def main():
             'sched_len_hist': stats['sched_len_hist'],
             'correspondence_differences': stats['diffs'], 'monitor_hits': stats['monitor_hits'],
             'monitors': spec.get('monitors', []),
-            'exhaustive': False,
+            'exhaustive': bool(stats.get('enum')) and all(e['exhaustive_for_bound'] for e in stats['enum'].values()),
+            'exhaustive_subspace': stats.get('enum', {}),
             'coqchk': coqchk_note,
             'partial': spec.get('partial', ''),
         },
@@ -299,6 +316,62 @@ def main():
     print('OK %s tier=%s seed=%d: %d/%d theorems checked, %d cases (%d distinct non-trivial traces) agree with the model, %.1fs'
           % (pid, tier, seed, ev['discharged'], ev['obligations'], stats['evaluations'], len(stats['nontrivial_traces']), wall))
     return 0
+
+
+def enumerate_small(comp, spec, rng, mexe, iexe, shards):
+    """all schedules (<= B pre-emptions / spurious wake-ups, depth D) of small programs, from the model's
+    enabled sets, replayed on both sides"""
+    nprog = spec.get('enum_programs', 40)
+    depth, budget, cap = spec.get('enum_depth', 120), spec.get('enum_budget', 2), spec.get('enum_cap', 4000)
+    small = []
+    gs = getattr(comp, 'gen_small', None)
+    tries = 0
+    while len(small) < nprog and tries < nprog * 50:
+        tries += 1
+        c = gs(rng, spec) if gs else comp.gen(rng, 'small', spec)
+        if not gs and (len(c['progs']) > 3 or sum(len(p) for p in c['progs']) > 4):
+            continue
+        c['sched'] = []
+        c['id'] = len(small)
+        small.append(c)
+    path = os.path.join(BUILD, 'cases', 'enum_%s_%d.case' % (comp.NAME, os.getpid()))
+    os.makedirs(os.path.dirname(path), exist_ok=True)
+    core.write_cases(path, small)
+    rc, out, _ = core.sh([mexe, path, '--enum', str(depth), str(budget), str(cap)], timeout=1200)
+    os.remove(path)
+    cases, cur, truncated, total = [], None, False, 0
+    for line in out.split('\n'):
+        if line.startswith('CASE '):
+            cur = small[int(line[5:])]
+        elif line.startswith('S') and cur is not None:
+            sc = [tuple(int(y) for y in x.split(':')) for x in line[1:].split()]
+            c = dict(cur)
+            c['sched'] = sc
+            c['id'] = len(cases)
+            c['origin'] = 'enumerated'
+            cases.append(c)
+        elif line.startswith('N '):
+            n = int(line[2:])
+            total += n
+            if n > cap:
+                truncated = True
+    mout, _ = core.run_sharded(mexe, cases, comp.NAME + '_em', shards)
+    iout, _ = core.run_sharded(iexe, cases, comp.NAME + '_ei', shards)
+    diffs, hits = [], []
+    for c in cases:
+        ml, il = core.canon(mout.get(c['id'], [])), core.canon(iout.get(c['id'], []))
+        d = core.first_diff(ml, il)
+        if d >= 0:
+            diffs.append((c, d, ml, il))
+        mh = run_monitors(comp, spec, c, il)
+        if core.verdict_of(il) == 3 and not mh:
+            mh = ['%s.crash: the implementation crashed' % comp.NAME]
+        if mh:
+            hits.append((c, mh, il))
+    return {'diffs': diffs, 'hits': hits,
+            'summary': {'programs': len(small), 'schedules': len(cases), 'schedules_in_space': total, 'depth': depth,
+                        'preemption_budget': budget, 'truncated': truncated,
+                        'exhaustive_for_bound': not truncated}}
 
 
 def core_verdict(v):
